@@ -1,16 +1,17 @@
 (* C18 — The shipped storage backends are interchangeable.
-   Property statements only; proofs live in Proofs/Backends.v (and Proofs/FsFacts.v).
+   Property statements only; proofs live in Proofs/Backends.v, Proofs/BackendsMatrix.v (and Proofs/FsFacts.v).
 
-   Models: MemFS.m_run = aioftp.MemoryPathIO, PosixFS.p_run = PathIO/AsyncPathIO through pathlib on a
-   POSIX kernel (validated against the real kernel, not proved), BackendSrv.srv_step = the server's
-   handler stack over either.  `wf` = names are unique in every directory (an invariant of MemoryPathIO,
-   C18_memfs_keeps_names_unique; a fact of life on a real file system).
+   Models: MemFS.m_run = aioftp.MemoryPathIO (as repaired: 'r+b' on a missing file fails, rename validates
+   like a file system), PosixFS.p_run = PathIO/AsyncPathIO through pathlib on a POSIX kernel (validated
+   against the real kernel, not proved), BackendSrv.srv_step = the server's handler stack over either.
 
-   FULL STATEMENT (refuted): for every tree t and every command history cs not aimed at the root,
-       srv_run m_run (None, t) cs = srv_run p_run (None, t) cs  and failing commands are inert.
-   It fails on four shapes, each with a vm_compute witness below that the harness replays against
-   three real servers (known_findings.json F06, F07a, F07b, F17).  What is proved is the statement for
-   every history that avoids those shapes (`shapes_ok`, decided on the state the history reaches). *)
+   FULL STATEMENT (proved, C18_backends_agree / C18_three_backends_agree): for every tree t, every pending
+   rename_from and every command history cs not aimed at the root,
+       srv_run m_run (rf, t) cs = srv_run p_run (rf, t) cs  and failing commands are inert.
+   History: before the repair of MemoryPathIO the statement was refuted on four shapes (F06 REST+STOR to a
+   missing file, F07a RNTO into the source's own subtree, F07b RNTO below a file, F17 RNTO onto the vanished
+   source's own path; known_findings.json `fixed`) and only a carved `_partial` held; the four witnesses are
+   kept below as computed cases (C18_former_*_agrees) and are replayed on three real servers on every run. *)
 From Coq Require Import ZArith List Bool.
 From Verif Require Import Lib.Sx Model.FsBase Model.MemFS Model.PosixFS Model.BackendSrv Model.FsAgreeDom
                           Proofs.FsFacts Proofs.Backends Proofs.BackendsMatrix Gen.PathIOTable.
@@ -19,33 +20,33 @@ Open Scope Z_scope.
 
 (* ---------------- server level ---------------- *)
 
-(* Same replies (codes and transferred payload) and same tree after every command, on both backends,
-   and a command that fails changes nothing on either -- for every tree with unique names, every
-   pending rename_from, every history whose steps avoid: a mutation aimed at the root itself,
-   REST n>0 + STOR/APPE to a missing file (F06), RNTO below a file / into the source's own subtree (F07),
-   RNTO onto the vanished source's own path (F17). *)
-Theorem C18_backends_agree_partial : forall cs rf t,
-  wf t -> shapes_ok (rf, t) cs = true ->
+(* Same replies (codes and transferred payload: retrieved bytes, listings) and same tree after every
+   command, on both backends, and a command that fails (any reply >= 400) changes nothing on either -- for
+   every tree, every pending rename_from, every history without a mutation aimed at the root itself
+   (`shapes_ok cs = forallb (fun c => negb (targets_root c)) cs`: the property's own exclusion). *)
+Theorem C18_backends_agree : forall cs rf t,
+  shapes_ok cs = true ->
   srv_run m_run (rf, t) cs = srv_run p_run (rf, t) cs
   /\ inert_from t (srv_run m_run (rf, t) cs)
   /\ inert_from t (srv_run p_run (rf, t) cs).
-Proof. exact backends_agree_partial. Qed.
-Print Assumptions C18_backends_agree_partial.
+Proof. exact backends_agree. Qed.
+Print Assumptions C18_backends_agree.
 
 (* the same, read through the abstract tree (names sorted, file bytes) *)
 Theorem C18_backends_agree_abs : forall cs rf t,
-  wf t -> shapes_ok (rf, t) cs = true ->
+  shapes_ok cs = true ->
   map (fun x => (fst x, abs (snd x))) (srv_run m_run (rf, t) cs)
   = map (fun x => (fst x, abs (snd x))) (srv_run p_run (rf, t) cs).
 Proof. exact backends_agree_abs. Qed.
 Print Assumptions C18_backends_agree_abs.
 
+(* non-vacuity: a 21-command history through every verb (incl. the four formerly refuted shapes) satisfies
+   the hypothesis, and it is not trivial: 226/250/257/350 as well as 451/503 replies occur *)
 Example C18_agree_nonvacuous :
-  wf wt0 /\
-  shapes_ok (None, wt0)
-    [CMkd [nm; nx]; CStor [nm; nx; nf] 0 [[1; 2]; [3]]; CStor [nm; nx; nf] 1 [[9]]; CAppe [nm; nx; nf] 0 [[4]];
-     CRetr [nm; nx; nf] 1; CRnfr [nm]; CRnto [nd; ne; nm]; CList [nd; ne]; CDele [nd; ne; nm; nx; nf];
-     CRmd [nd; ne; nm; nx]; CRmd [nd]; CCwd [nd]; CMlst [ng]; CRnfr [ng]; CRnto [nm; nx]] = true.
+  wf wt0 /\ shapes_ok hist0 = true /\
+  codes_of (srv_run m_run (None, wt0) hist0) =
+    [[257]; [150; 226]; [150; 226]; [150; 226]; [150; 226]; [350]; [250]; [150; 226]; [250]; [250]; [451]; [250];
+     [250]; [350]; [451]; [150; 451]; [350]; [451]; [350]; [451]; [503]].
 Proof. exact agree_nonvacuous. Qed.
 
 (* ---- per-operation agreement, under exactly what the handler's guards establish ---- *)
@@ -76,17 +77,17 @@ Theorem C18_dele_agree : forall t p, step_agree (m_run t (Unlink p)) (p_run t (U
 Proof. exact unlink_agree. Qed.
 Print Assumptions C18_dele_agree.
 
-(* RNTO: destination does not exist (path_must_not_exists); the source may or may not still exist;
-   source <> destination and not one of the two F07 shapes *)
+(* RNTO: destination does not exist (path_must_not_exists); the source may or may not still exist, may
+   equal the destination, the destination may lie below a file or inside the source: no further condition *)
 Theorem C18_rnto_agree : forall t a b,
-  wf t -> a <> [] -> lookup b t = None -> path_eqb a b = false -> rename_bad t a b = false ->
+  a <> [] -> lookup b t = None ->
   step_agree (m_run t (Rename a b)) (p_run t (Rename a b)).
 Proof. exact rename_agree. Qed.
 Print Assumptions C18_rnto_agree.
 
-(* STOR / APPE: is_dir(parent); mode r+b iff restart_offset; not (restart and missing file) *)
+(* STOR / APPE: is_dir(parent); mode r+b iff the transfer's restart offset is non-zero *)
 Theorem C18_stor_agree : forall t p m restart blocks,
-  (m = WB \/ m = AB) -> rest_missing t p restart = false ->
+  (m = WB \/ m = AB) ->
   store m_run t p m restart blocks = store p_run t p m restart blocks.
 Proof. exact store_agree. Qed.
 Print Assumptions C18_stor_agree.
@@ -97,70 +98,53 @@ Theorem C18_retr_agree : forall t p d restart,
 Proof. exact retrieve_agree. Qed.
 Print Assumptions C18_retr_agree.
 
-(* one guarded command *)
+(* one command outside the root carve-out *)
 Theorem C18_step_agree : forall rf t c,
-  wf t -> shape_ok (rf, t) c = true -> srv_step m_run (rf, t) c = srv_step p_run (rf, t) c.
-Proof. exact srv_step_agree. Qed.
+  shape_ok c = true -> srv_step m_run (rf, t) c = srv_step p_run (rf, t) c.
+Proof. intros rf t c _. exact (srv_step_agree rf t c). Qed.
 Print Assumptions C18_step_agree.
 
 Theorem C18_memfs_keeps_names_unique : forall t o, wf t -> wf (snd (m_run t o)).
 Proof. exact m_run_wf. Qed.
 Print Assumptions C18_memfs_keeps_names_unique.
 
-(* ---- the genuine divergences (each replayed on the real servers by the harness) ---- *)
-Theorem C18_rest_stor_missing_refuted :
-  exists t p n blocks,
-    wf t /\ shape_ok (None, t) (CStor p n blocks) = false /\
-    codes_of (srv_run m_run (None, t) [CStor p n blocks]) = [[150; 226]] /\
-    codes_of (srv_run p_run (None, t) [CStor p n blocks]) = [[150; 451]] /\
-    lookup p (last_tree t (srv_run m_run (None, t) [CStor p n blocks])) = Some (File [0; 0; 80; 81]) /\
-    last_tree t (srv_run p_run (None, t) [CStor p n blocks]) = t.
-Proof. exact rest_stor_missing_refuted. Qed.
-Print Assumptions C18_rest_stor_missing_refuted.
+(* ---- the four formerly refuted histories, as computed cases (each replayed on the real servers by the
+   harness, where the three-way oracle must now hold) ---- *)
+Example C18_former_F06_witness_agrees :      (* REST 2; STOR /m  (m missing): 150/451 on both, nothing created *)
+  codes_of (srv_run m_run (None, wt0) [CStor [nm] 2 [[80; 81]]]) = [[150; 451]] /\
+  srv_run m_run (None, wt0) [CStor [nm] 2 [[80; 81]]] = srv_run p_run (None, wt0) [CStor [nm] 2 [[80; 81]]] /\
+  last_tree wt0 (srv_run m_run (None, wt0) [CStor [nm] 2 [[80; 81]]]) = wt0.
+Proof. exact former_F06_witness_agrees. Qed.
 
-Theorem C18_rename_into_self_refuted :
-  exists t a b,
-    wf t /\ shapes_ok (None, t) [CRnfr a; CRnto b] = false /\
-    codes_of (srv_run m_run (None, t) [CRnfr a; CRnto b]) = [[350]; [250]] /\
-    codes_of (srv_run p_run (None, t) [CRnfr a; CRnto b]) = [[350]; [451]] /\
-    lookup a (last_tree t (srv_run m_run (None, t) [CRnfr a; CRnto b])) = None /\
-    lookup b (last_tree t (srv_run m_run (None, t) [CRnfr a; CRnto b])) = None /\
-    last_tree t (srv_run p_run (None, t) [CRnfr a; CRnto b]) = t.
-Proof. exact rename_into_self_refuted. Qed.
-Print Assumptions C18_rename_into_self_refuted.
+Example C18_former_F07a_witness_agrees :     (* RNFR /d; RNTO /d/e/h: 451 on both, /d still there *)
+  codes_of (srv_run m_run (None, wt0) [CRnfr [nd]; CRnto [nd; ne; nh]]) = [[350]; [451]] /\
+  srv_run m_run (None, wt0) [CRnfr [nd]; CRnto [nd; ne; nh]] = srv_run p_run (None, wt0) [CRnfr [nd]; CRnto [nd; ne; nh]] /\
+  last_tree wt0 (srv_run m_run (None, wt0) [CRnfr [nd]; CRnto [nd; ne; nh]]) = wt0.
+Proof. exact former_F07a_witness_agrees. Qed.
 
-(* also refutes "a failing command changes nothing" on the in-memory backend *)
-Theorem C18_rename_under_file_refuted :
-  exists t a b,
-    wf t /\ shapes_ok (None, t) [CRnfr a; CRnto b] = false /\
-    codes_of (srv_run m_run (None, t) [CRnfr a; CRnto b]) = [[350]; [451]] /\
-    codes_of (srv_run p_run (None, t) [CRnfr a; CRnto b]) = [[350]; [451]] /\
-    lookup a (last_tree t (srv_run m_run (None, t) [CRnfr a; CRnto b])) = None /\
-    last_tree t (srv_run p_run (None, t) [CRnfr a; CRnto b]) = t /\
-    ~ inert_from t (srv_run m_run (None, t) [CRnfr a; CRnto b]).
-Proof. exact rename_under_file_refuted. Qed.
-Print Assumptions C18_rename_under_file_refuted.
+Example C18_former_F07b_witness_agrees :     (* RNFR /d; RNTO /g/x (g a file): 451 on both, /d still there *)
+  codes_of (srv_run m_run (None, wt0) [CRnfr [nd]; CRnto [ng; nx]]) = [[350]; [451]] /\
+  srv_run m_run (None, wt0) [CRnfr [nd]; CRnto [ng; nx]] = srv_run p_run (None, wt0) [CRnfr [nd]; CRnto [ng; nx]] /\
+  last_tree wt0 (srv_run m_run (None, wt0) [CRnfr [nd]; CRnto [ng; nx]]) = wt0.
+Proof. exact former_F07b_witness_agrees. Qed.
 
-Theorem C18_rnto_same_path_refuted :
-  exists t a,
-    wf t /\ shapes_ok (None, t) [CRnfr a; CDele a; CRnto a] = false /\
-    codes_of (srv_run m_run (None, t) [CRnfr a; CDele a; CRnto a]) = [[350]; [250]; [250]] /\
-    codes_of (srv_run p_run (None, t) [CRnfr a; CDele a; CRnto a]) = [[350]; [250]; [451]].
-Proof. exact rnto_same_path_refuted. Qed.
-Print Assumptions C18_rnto_same_path_refuted.
+Example C18_former_F17_witness_agrees :      (* RNFR /g; DELE /g; RNTO /g: 451 on both *)
+  codes_of (srv_run m_run (None, wt0) [CRnfr [ng]; CDele [ng]; CRnto [ng]]) = [[350]; [250]; [451]] /\
+  srv_run m_run (None, wt0) [CRnfr [ng]; CDele [ng]; CRnto [ng]] = srv_run p_run (None, wt0) [CRnfr [ng]; CDele [ng]; CRnto [ng]].
+Proof. exact former_F17_witness_agrees. Qed.
 
 (* all three backends in one statement: `a_run` is any backend whose every operation has PathIO's
    outcome -- what C18_fs_backends_equal (below) establishes for AsyncPathIO's wrappers *)
-Theorem C18_three_backends_agree_partial : forall a_run : node -> fsop -> result * node,
+Theorem C18_three_backends_agree : forall a_run : node -> fsop -> result * node,
   (forall t o, a_run t o = p_run t o) ->
-  forall cs rf t, wf t -> shapes_ok (rf, t) cs = true ->
+  forall cs rf t, shapes_ok cs = true ->
     srv_run m_run (rf, t) cs = srv_run p_run (rf, t) cs
     /\ srv_run a_run (rf, t) cs = srv_run p_run (rf, t) cs
     /\ inert_from t (srv_run m_run (rf, t) cs)
     /\ inert_from t (srv_run p_run (rf, t) cs)
     /\ inert_from t (srv_run a_run (rf, t) cs).
-Proof. exact three_backends_agree_partial. Qed.
-Print Assumptions C18_three_backends_agree_partial.
+Proof. exact three_backends_agree. Qed.
+Print Assumptions C18_three_backends_agree.
 
 (* RETR sends the file block by block (iter_by_block(block_size): read(block_size) until b""); the model's
    `retrieve` takes one read(-1).  For every file, restart offset and block size the blocks concatenate
@@ -175,12 +159,12 @@ Print Assumptions C18_retr_blocks_payload.
 (* Outside the letter of the property (which relates the three backends behind the server and the two
    file-system backends at the API), but it is what makes the server-level statement robust: on the
    decidable domain `api_ok` -- every query, mkdir with every parents/exist_ok, rmdir/unlink on every
-   path but the root, rename onto a missing destination outside the F07/F17 shapes, open in every mode
+   path but the root, rename onto a missing destination, open in every mode on every path
    with every seek/read/write script inside the matrix `hop_cell_ok` / `ab_script_ok` -- MemFS and
    PosixFS give the same result-or-failure (up to the class of the error, also per call of a handle
    script) and the same tree after every operation of every sequence. *)
 Theorem C18_api_mem_posix_agree_partial : forall os t,
-  wf t -> api_oks t os = true ->
+  api_oks t os = true ->
   map blank_step (run_ops m_run t os) = map blank_step (run_ops p_run t os).
 Proof. exact api_seq_sim. Qed.
 Print Assumptions C18_api_mem_posix_agree_partial.
@@ -253,12 +237,11 @@ Theorem C18_ab_seek_write_cell_refuted :
 Proof. exact ab_seek_write_cell_refuted. Qed.
 Print Assumptions C18_ab_seek_write_cell_refuted.
 
-Theorem C18_rpb_missing_cell_refuted :
-  exists t p, wf t /\ open_ok t p RPB [] = false /\
-    m_run t (Open p RPB []) = (Ok (VOpen []), upd [] (on_dir (fun es => es ++ [(nm, File [])])) t) /\
-    p_run t (Open p RPB []) = (Err ENOENT, t).
-Proof. exact rpb_missing_cell_refuted. Qed.
-Print Assumptions C18_rpb_missing_cell_refuted.
+(* r+b on a missing file was the fourth excluded cell (F06 at the API): inside the domain now *)
+Example C18_former_rpb_missing_cell_agrees :
+  open_ok wt0 [nm] RPB [] = true /\
+  m_run wt0 (Open [nm] RPB []) = (Err ENOENT, wt0) /\ p_run wt0 (Open [nm] RPB []) = (Err ENOENT, wt0).
+Proof. exact former_rpb_missing_cell_agrees. Qed.
 
 Theorem C18_rename_over_existing_refuted :
   exists t a b, wf t /\ api_ok t (Rename a b) = false /\
